@@ -1,12 +1,110 @@
-/- Driver ops for the Config model. Stub until the model lands. -/
+/- Driver ops for the Config model (C20): `config.init`, `config.apply`. -/
 import Lean.Data.Json
 import PypyrModel.Json
+import PypyrModel.Config
 
 namespace Pypyr.OpConfig
 open Lean (Json)
+open Pypyr.Config
 
-/-- Handle one request object (already parsed); `Except.error` = protocol-level reject. -/
-def handle (_op : String) (_j : Json) : Except String Json :=
-  .error "not implemented"
+def strsJ (xs : List String) : Json := Json.arr (xs.map Json.str).toArray
+
+def payloadOf (j : Json) : Except String Payload := do
+  match ← (← j.getObjVal? "kind").getStr? with
+  | "none" => pure .none
+  | "nonmap" => pure (.nonMapping (← (← j.getObjVal? "truthy").getBool?))
+  | "map" =>
+    let kvs ← (← (← j.getObjVal? "kvs").getArr?).toList.mapM fun p => do
+      match p with
+      | .arr #[k, v] => pure ((← k.getStr?), (← Val.ofJson v))
+      | _ => throw "bad mapping pair"
+    pure (.mapping kvs)
+  | k => throw s!"unknown payload kind {k}"
+
+def filesOf (j : Json) : Except String Files := do
+  (← j.getArr?).toList.mapM fun p => do
+    match p with
+    | .arr #[path, pl] => pure ((← path.getStr?), (← payloadOf pl))
+    | _ => throw "bad file entry"
+
+def envOf (j : Json) : Except String Env := do
+  let vars ← (← (← j.getObjVal? "vars").getArr?).toList.mapM fun p => do
+    match p with
+    | .arr #[k, v] => pure ((← k.getStr?), (← v.getStr?))
+    | _ => throw "bad env entry"
+  let home ← (← j.getObjVal? "home").getStr?
+  let platform ← match ← (← j.getObjVal? "platform").getStr? with
+    | "posix" => pure Platform.posix
+    | "macos" => pure Platform.macos
+    | p => throw s!"platform {p} is not modelled"
+  pure { vars := vars, home := home, platform := platform }
+
+def errJ : CfgErr → Json
+  | e@(.notFound p) => Json.mkObj [("name", Json.str e.name), ("kind", "notFound"), ("path", Json.str p)]
+  | e@(.notMapping p) => Json.mkObj [("name", Json.str e.name), ("kind", "notMapping"), ("path", Json.str p)]
+  | e@(.unknownProps ks) => Json.mkObj [("name", Json.str e.name), ("kind", "unknownProps"), ("keys", strsJ ks)]
+  | e@(.dictUpdate d) => Json.mkObj [("name", Json.str e.name), ("kind", "dictUpdate"), ("prop", Json.str d)]
+
+def dictJ (d : Dict) : Json := Json.arr (d.map fun (k, v) => Json.arr #[k.toJson, v.toJson]).toArray
+
+def stateJ (st : ConfigState) : Json :=
+  Json.mkObj [
+    ("scalars", Json.arr (st.scalars.map fun (k, v) => Json.arr #[Json.str k, v.toJson]).toArray),
+    ("dicts", Json.arr (st.dicts.map fun (k, d) => Json.arr #[Json.str k, dictJ d]).toArray),
+    ("loaded", strsJ st.loaded),
+    ("skip_init", Json.bool st.skipInit)]
+
+def outcomeJ (o : Outcome) : Json :=
+  Json.mkObj [("state", stateJ o.1), ("err", match o.2 with | some e => errJ e | none => Json.null)]
+
+/-- Everything the model is silent about is rejected here, never defaulted. -/
+def checkDomain (e : Env) (fs : Files) : Except String Unit := do
+  for (k, v) in e.vars do
+    unless asciiStr k && asciiStr v do throw s!"out of domain: non-ASCII environment value for {k}"
+  unless pathClean e.home do throw "out of domain: home is not a clean path"
+  let xh := e.getD "XDG_CONFIG_HOME" ""
+  unless isBlank xh || pathClean xh do throw "out of domain: XDG_CONFIG_HOME is not a clean path"
+  for d in (e.getD "XDG_CONFIG_DIRS" "").splitOn ":" do
+    unless isBlank d || pathClean d do throw s!"out of domain: XDG_CONFIG_DIRS entry {d} is not a clean path"
+  match e.globalPath? with
+  | some g => unless pathClean g do throw "out of domain: PYPYR_CONFIG_GLOBAL is not a clean path"
+  | none => pure ()
+  let loc := e.getD "PYPYR_CONFIG_LOCAL" "pypyr-config.yaml"
+  unless loc == "" || pathClean loc do throw "out of domain: PYPYR_CONFIG_LOCAL is not a clean path"
+  let looks := lookOrder e
+  for l in looks do
+    for l' in looks do
+      if l.path == l'.path && l.loader != l'.loader then
+        throw s!"out of domain: {l.path} is read both as yaml and as pyproject.toml"
+  unless decide (fs.map (·.1)).Nodup do throw "duplicate path in files"
+  for (p, pl) in fs do
+    unless payloadInDomain pl do throw s!"out of domain: payload of {p}"
+
+/-- ops: `init` {env, files} → outcome of `Config(); init()`, the look-up order and the
+    `handle_path` calls actually made; `apply` {env, path, payload, prefix?} → outcome of one
+    `handle_path` on the defaults (`prefix: true` = the rule before the F8 repair). -/
+def handle (op : String) (j : Json) : Except String Json := do
+  match op with
+  | "init" =>
+    let e ← envOf (← j.getObjVal? "env")
+    let fs ← filesOf (← j.getObjVal? "files")
+    checkDomain e fs
+    let o := initSt e fs
+    let looks := initOrder e
+    pure (Json.mkObj [
+      ("state", stateJ o.1),
+      ("err", match o.2 with | some err => errJ err | none => Json.null),
+      ("order", Json.arr (looks.map fun l => Json.arr #[Json.str l.path,
+          Json.str (match l.loader with | .yaml => "yaml" | .pyproject => "pyproject"),
+          Json.bool l.mustExist]).toArray),
+      ("consulted", strsJ (consulted fs (defaults e) looks))])
+  | "apply" =>
+    let e ← envOf (← j.getObjVal? "env")
+    let path ← (← j.getObjVal? "path").getStr?
+    let pl ← payloadOf (← j.getObjVal? "payload")
+    unless payloadInDomain pl do throw "out of domain: payload"
+    let pre := match j.getObjVal? "prefix" with | .ok (.bool true) => true | _ => false
+    pure (outcomeJ (if pre then applyFileStPreFix (defaults e) path pl else applyFileSt (defaults e) path pl))
+  | _ => .error s!"unknown op {op}"
 
 end Pypyr.OpConfig
